@@ -57,3 +57,13 @@ claim('C12', 'dominance of erasure by purity+no-referrer tests; visitor complete
       'opt level 0 bypasses the optimiser, and SideEffectChecker::is_impure is conservative on every hir::Expr variant and classifies calls by callee.',
       'Equality of output across optimisation levels for whole programs is a run-time fact and is not decided.',
       'DESIGN.md §3 C12')
+
+claim('C25', 'table agreement Rust<->Python (ADT discriminants, typed HIR, python ast) + I/O discipline rules',
+      'Decides the framing clauses: instruction tables and 1+2+n big-endian header agree on both sides, both sides use exact-length I/O, and the size field equals the payload '
+      '(two instances of the last are known findings).',
+      'The correspondence between inputs and results of DummyVM::eval over histories is not decided.',
+      'DESIGN.md §3 C25')
+claim('C27', 'declaration-table scan of lib/pystd/**/*.d.er against dir(module) of CPython 3.7-3.13 and typeshed stubs (all platform branches)',
+      'Decides the property as stated, exhaustively over every top-level declaration of every bundled declaration file (30 misspelt / wrongly mapped names are known findings).',
+      'Trusts the frozen dir() tables in ref/ (re-dumped live in the thorough tier) and the typeshed copy shipped in the tooling venv; nested class members are not checked.',
+      'DESIGN.md §3 C27')
